@@ -1,9 +1,18 @@
 import CharsetProof.Lemmas.F32
 import CharsetProof.Lemmas.Loop
+import CharsetProof.Lemmas.Merge
 import CharsetProof.Lemmas.Share
+import CharsetProof.Lemmas.SortSmall
 import CharsetProof.Props.C10
 import CharsetProof.Props.C10b
+import CharsetProof.Props.C10c
 open Charset
+#print axioms C10_languages_current
+#print axioms C10_tied_language
+#print axioms C10_tied_table_now
+#print axioms mergeModel_nodup
+#print axioms mergeModel_mem
+#print axioms sortUnstableSmall_perm
 #print axioms C10_share
 #print axioms append_distinct
 #print axioms sameOutput_of_identical
